@@ -25,7 +25,7 @@ REPO = os.environ.get("VERIF_REPO", "/repo")
 SCRATCH_ROOT = os.environ.get("VERIF_SCRATCH", "/var/tmp")
 RUSTFLAGS = '-A explicit_builtin_cfgs_in_flags --cfg panic="unwind" -Zcrate-attr=feature(allocator_api)'
 KANI_FLAGS = ["-Z", "stubbing", "-Z", "function-contracts", "-Z", "unstable-options"]
-NAMED = re.compile(r'^"?(C\d\d)_[A-Za-z0-9_]+')
+NAMED = re.compile(r'^"?(C\d\d|U)_[A-Za-z0-9_]+')
 PEEKS = {
     "src/key.rs": "peek/key.rs",
     "src/mutex.rs": "peek/mutex.rs",
@@ -221,7 +221,7 @@ def classify(results, wanted, stdout, prop):
                 continue
             info["checks"] += 1
             is_named = bool(NAMED.match(clean))
-            if is_named and prop != "DEV" and not clean.startswith(prop + "_"):
+            if is_named and prop != "DEV" and not clean.startswith(prop + "_") and not clean.startswith("U_"):
                 # obligation owned by another property (shared harness): not counted here
                 if status == "Failure":
                     refuted.append({"harness": short, "obligation": clean.split(":")[0], "description": clean, "location": where})
@@ -326,8 +326,9 @@ def match_known(known, prop, item):
 
 def write_replay(prop, items, crate, kani_cmd, stdout_tail):
     """One replay file per check run with refuted obligations; tries Kani concrete playback for values."""
-    os.makedirs(os.path.join(VERIF, "replay"), exist_ok=True)
-    path = os.path.join(VERIF, "replay", "%s.json" % prop)
+    rdir = os.environ.get("VERIF_EVIDENCE_DIR", os.path.join(VERIF, "replay"))
+    os.makedirs(rdir, exist_ok=True)
+    path = os.path.join(rdir, "%s.json" % prop)
     doc = {"property": prop, "refuted": [], "kani_cmd": kani_cmd, "verifier_output_tail": stdout_tail[-6000:]}
     found_input = False
     by_h = {}
@@ -432,7 +433,7 @@ def main():
     if args.only:
         wanted = [h for h in wanted if re.search(args.only, h)]
     timeout_s = args.timeout or cfg.get("timeout_s", {}).get(tier, 600 if tier == "quick" else 2400)
-    evidence_path = os.path.join(VERIF, "evidence", "%s.json" % prop)
+    evidence_path = os.path.join(os.environ.get("VERIF_EVIDENCE_DIR", os.path.join(VERIF, "evidence")), "%s.json" % prop)
     os.makedirs(os.path.dirname(evidence_path), exist_ok=True)
 
     scratch = make_scratch(prop)
@@ -454,8 +455,9 @@ def main():
         if crate and wanted:
             r, results, kani_wall, kani_cmd = run_kani(crate, wanted, timeout_s, jobs=args.jobs)
             stdout_tail = (r.stdout or "")[-8000:]
-            os.makedirs(os.path.join(VERIF, "logs"), exist_ok=True)
-            with open(os.path.join(VERIF, "logs", "%s.%s.log" % (prop, tier)), "w") as lf:
+            logdir = os.environ.get("VERIF_EVIDENCE_DIR", os.path.join(VERIF, "logs"))
+            os.makedirs(logdir, exist_ok=True)
+            with open(os.path.join(logdir, "%s.%s.log" % (prop, tier)), "w") as lf:
                 lf.write(kani_cmd + "\n==== stdout\n" + (r.stdout or "") + "\n==== stderr\n" + (r.stderr or ""))
             if results is None:
                 both = re.sub(r"\x1b\[[0-9;]*m", "", (r.stdout or "") + "\n" + (r.stderr or ""))
@@ -483,7 +485,7 @@ def main():
         own = []
         for it in refuted:
             tag = it["obligation"][:3]
-            if prop == "DEV" or it["obligation"].startswith("kani_safety") or tag == prop:
+            if prop == "DEV" or it["obligation"].startswith("kani_safety") or tag == prop or it["obligation"].startswith("U_"):
                 own.append(it)
             else:
                 # an obligation owned by another property failed in a shared harness: the paths behind
@@ -504,8 +506,9 @@ def main():
         if new_viol:
             exit_code = 1
             if args.no_replay or crate is None:
-                os.makedirs(os.path.join(VERIF, "replay"), exist_ok=True)
-                replay_path = os.path.join(VERIF, "replay", "%s.json" % prop)
+                rdir = os.environ.get("VERIF_EVIDENCE_DIR", os.path.join(VERIF, "replay"))
+                os.makedirs(rdir, exist_ok=True)
+                replay_path = os.path.join(rdir, "%s.replay.json" % prop)
                 json.dump({"property": prop, "refuted": new_viol, "kani_cmd": kani_cmd, "verifier_output_tail": stdout_tail[-6000:]}, open(replay_path, "w"), indent=1)
                 found = False
             else:
